@@ -887,6 +887,40 @@ func (l *Ledger) Add(blk *Block, now int64) *Node {
 	return n
 }
 
+// AddTrusted inserts a coinbase-only block that is known to be valid (a block of a fixed, once-validated
+// prefix) without judging it again.  Unless keepParent is set the parent's unspent map is handed over to the
+// child instead of being copied, so that a prefix of thousands of blocks costs linear, not quadratic, work;
+// the parent then has no unspent map of its own (nothing may fork from it or recover to it).
+func (l *Ledger) AddTrusted(blk *Block, keepParent bool) *Node {
+	hh := blk.Hash()
+	if n, ok := l.Nodes[hh]; ok {
+		return n
+	}
+	par := l.Nodes[blk.H.Prev]
+	if par == nil || par.utxo == nil || len(blk.Txs) != 1 {
+		return nil
+	}
+	l.seq++
+	n := &Node{Hash: hh, Parent: par, Height: par.Height + 1, Blk: blk, Time: blk.H.Time, Bits: blk.H.Bits, Seq: l.seq}
+	n.CumWork = new(big.Int).Add(par.CumWork, Work(blk.H.Bits))
+	if keepParent {
+		n.utxo = make(map[OutPoint]Coin, len(par.utxo)+4)
+		for k, v := range par.utxo {
+			n.utxo[k] = v
+		}
+	} else {
+		n.utxo, par.utxo = par.utxo, nil
+	}
+	t := blk.Txs[0]
+	id := t.ID()
+	for i := range t.Out {
+		n.utxo[OutPoint{id, uint32(i)}] = Coin{t.Out[i].Value, t.Out[i].Pk, n.Height, true}
+	}
+	par.Kids = append(par.Kids, n)
+	l.Nodes[hh] = n
+	return n
+}
+
 // Recheck re-evaluates a node whose verdict depended on the clock.
 func (l *Ledger) Recheck(n *Node, now int64) {
 	if n.Parent != nil && n.Parent.Valid() {
